@@ -405,7 +405,10 @@ def _identity_grid_table(ctx: Ctx, rel: str):
                 if isinstance(x, ast.Call):
                     cn = call_name(x)
                     if cn == "warp_1d_grid":
-                        n_ = int(holder["it"].eval(x.args[3], env)) if len(x.args) > 3 else None
+                        wg_ = pkg.func(f"{MOD}::warp_1d_grid")  # (the padded extent: fourth formal, positionally or by keyword)
+                        by_ = {p_.name: a_ for p_, a_, _ in bind_args(x, wg_, False).pairs}
+                        a4_ = by_.get(wg_.params[3].name) if len(wg_.params) > 3 else None
+                        n_ = int(holder["it"].eval(a4_, env)) if a4_ is not None else None
                         if n_ is None:
                             raise NotEvaluable("warp_1d_grid arguments")
                         return frac_array([[Fr(7 * i_ + j_, 100) for j_ in range(n_)] for i_ in range(N)])
